@@ -137,4 +137,15 @@ PROPS = {
             "thorough": [dict(test="TestC09Aggregate", checks=8000, shards=16, timeout=3000)],
         },
     ),
+    "C08": dict(
+        kind="ext", pkg="./c08", level="exploration", engine="rapid",
+        technique="property-based testing (rapid) of algebraic laws: recovery and aggregation round trips against the undivided key, all subsets for n<=7, with negative substitutions",
+        level_text="For generated (n, t, secret, message): every subset of size >= t (exhaustive per case for n <= 7) recovers the secret and the group key and aggregates to exactly the undivided key's signature; "
+                   "substituting a share from another split, a wrong index or another message must not verify.",
+        level_note="herumi BLS is the trusted base; negatives are statistical; secrets come from drawn bytes through the package's insecure generators (the CSPRNG split is exercised too, the oracle is coefficient independent).",
+        runs={
+            "quick": [dict(test="TestC08Threshold", checks=60, shards=4)],
+            "thorough": [dict(test="TestC08Threshold", checks=1500, shards=16, timeout=3000)],
+        },
+    ),
 }
